@@ -468,6 +468,43 @@ def sc_same_create_if_not_exists(fs: Any):
     return [body(0), body(1)], check
 
 
+def sc_patch_first_connects(fs: Any):
+    """The first two connect() calls under one fakesnow.patch() overlap: both sessions are sessions of the same instance."""
+    import snowflake.connector
+
+    import fakesnow
+
+    cm = fakesnow.patch()
+    cm.__enter__()
+    got: list[Any] = [None, None]
+
+    def body(i: int) -> Callable[[], None]:
+        def f() -> None:
+            c = snowflake.connector.connect(database="pdb", schema="ps")
+            got[i] = c
+            cur = c.cursor()
+            cur.execute("CREATE TABLE IF NOT EXISTS SHARED_P (ID INT, WHO INT)")
+            for j in range(2):
+                cur.execute(f"INSERT INTO SHARED_P VALUES ({i * 10 + j}, {i})")
+        return f
+
+    def check(env: core.Env, sched: Sched, name: str) -> None:
+        env.count("cmp_conservation")
+        if any(e is not None for e in sched.errors) or None in got:
+            return
+        want = sorted((i * 10 + j, i) for i in range(2) for j in range(2))
+        for i in range(2):
+            rows = sorted(got[i].cursor().execute("SELECT ID, WHO FROM SHARED_P").fetchall())
+            if rows != want:
+                env.witness(f"C19/{name}/sessions-of-one-patch-do-not-share-data", f"session {i} reads {rows} expected {want} trace={sched.trace}")
+                break
+
+    def cleanup() -> None:
+        cm.__exit__(None, None, None)
+
+    return [body(0), body(1)], check, cleanup
+
+
 def sc_own_tables(fs: Any, k: int = 3):
     conns = [fs.connect("db1", "s1") for _ in range(k)]
 
@@ -501,6 +538,7 @@ SCENARIOS: dict[str, Callable] = {
     "txn-pk-conflict": sc_txn_pk_conflict,
     "drop-vs-replace-same-table": sc_drop_vs_replace,
     "connect-same-db-other-letter-case": sc_connect_other_case,
+    "first-connects-under-one-patch": sc_patch_first_connects,
     "same-create-table-if-not-exists": sc_same_create_if_not_exists,
     "connect-vs-create-statements": sc_connect_vs_create_statements,
 }
@@ -523,8 +561,12 @@ def gen_cases(tier: str, seed: int):
 
 def _run_schedule(env: core.Env, name: str, plan: list[tuple[int, int]]) -> tuple[list[int], int]:
     fs = core.new_fs()
+    cleanup: Any = None
     try:
-        bodies, check = SCENARIOS[name](fs)
+        built = SCENARIOS[name](fs)
+        bodies, check = built[0], built[1]
+        if len(built) > 2:
+            cleanup = built[2]
         sched = Sched(len(bodies))
         try:
             sched.run(bodies, plan)
@@ -543,6 +585,11 @@ def _run_schedule(env: core.Env, name: str, plan: list[tuple[int, int]]) -> tupl
         check(env, sched, name)
         return sched.trace, len(bodies)
     finally:
+        if cleanup is not None:
+            try:
+                cleanup()
+            except Exception:  # noqa: BLE001
+                pass
         try:
             fs.duck_conn.close()
         except Exception:  # noqa: BLE001
